@@ -41,7 +41,7 @@ func msgInfos(cb *compiled) []msgInfo {
 	var out []msgInfo
 	for _, t := range cb.reg.Templates {
 		collectMsgs(t.Node, func(m *ast.MsgNode) {
-			out = append(out, msgInfo{id: m.ID, phstr: soymsg.PlaceholderString(m), names: strings.Split(placeholderNames(m), ",")})
+			out = append(out, msgInfo{id: m.ID, phstr: soymsg.PlaceholderString(m), names: strings.Split(placeholderNames(m), phSep)})
 		})
 	}
 	return out
@@ -100,10 +100,7 @@ func refPlaceholders(body []ref.Cmd) (order []phRef, err error) {
 			case "print":
 				src := gen.PrintExpr(c.Expr)
 				b := ref.ExprBaseName(c.Expr, "XXX")
-				key := "print:" + src
-				for _, d := range c.Directives {
-					key += "|" + d.Name
-				}
+				key := "print:" + src + gen.PrintDirectives(c.Directives)
 				order = append(order, phRef{key, b})
 			case "plural":
 				src := gen.PrintExpr(c.Expr)
@@ -239,10 +236,7 @@ func checkC10(c C10Case) Verdict {
 					wantSeq = append(wantSeq, want["tag:"+tag])
 				}
 			case "print":
-				key := "print:" + gen.PrintExpr(cm.Expr)
-				for _, d := range cm.Directives {
-					key += "|" + d.Name
-				}
+				key := "print:" + gen.PrintExpr(cm.Expr) + gen.PrintDirectives(cm.Directives)
 				wantSeq = append(wantSeq, want[key])
 			case "plural":
 				wantSeq = append(wantSeq, want["plural:"+gen.PrintExpr(cm.Expr)])
@@ -512,10 +506,7 @@ func contentString(body []ref.Cmd, names map[string]string) (string, error) {
 			case "sp":
 				b.WriteString(" ")
 			case "print":
-				key := "print:" + gen.PrintExpr(c.Expr)
-				for _, d := range c.Directives {
-					key += "|" + d.Name
-				}
+				key := "print:" + gen.PrintExpr(c.Expr) + gen.PrintDirectives(c.Directives)
 				ph(names[key])
 			case "plural":
 				b.WriteString("{" + names["plural:"+gen.PrintExpr(c.Expr)] + ",plural,")
